@@ -6,5 +6,7 @@ export GOFLAGS=-mod=mod GOPROXY=off GOSUMDB=off GOTOOLCHAIN=local
 mkdir -p .build evidence replays
 (cd sim/rewrite && go build -o ../../.build/simrewrite.tmp . && mv ../../.build/simrewrite.tmp ../../.build/simrewrite)
 rm -f .build/simrewrite.stamp
+# unit tests of the simulator's primitives (channel model: rendezvous, buffers, close, select, deadlock)
+(cd sim/simrt && go test -count=1 . >/dev/null)
 python3 ./check build >/dev/null
 echo "setup: ok"
